@@ -103,7 +103,7 @@ func (e *Engine) layout(t types.Type) []Sort {
 func (e *Engine) size(t types.Type) int64 {
 	switch u := t.Underlying().(type) {
 	case *types.Array:
-		return u.Len() * e.size(u.Elem())
+		return u.Len() * e.strideOf(u.Elem())
 	case *types.Struct:
 		var n int64
 		for i := 0; i < u.NumFields(); i++ {
@@ -234,4 +234,60 @@ func (e *Engine) typeID(t types.Type) int64 {
 	e.typeIDs[k] = id
 	e.typeNames[id] = k
 	return id
+}
+
+// strideOf: the distance in leaves between consecutive elements of an array or
+// slice of elem. It is the element size rounded up to a power of two, so that
+// index arithmetic is shifts and masks (the layout is the verifier's own
+// abstraction of memory; padding leaves are never accessed).
+func (e *Engine) strideOf(elem types.Type) int64 {
+	n := e.size(elem)
+	p := int64(1)
+	for p < n {
+		p <<= 1
+	}
+	return p
+}
+
+// memOffsets: the memory offset of every layout leaf of a value of type t.
+func (e *Engine) memOffsets(t types.Type) []int64 {
+	if o, ok := e.memOffCache[t]; ok {
+		return o
+	}
+	var out []int64
+	switch u := t.Underlying().(type) {
+	case *types.Struct:
+		base := int64(0)
+		for i := 0; i < u.NumFields(); i++ {
+			for _, o := range e.memOffsets(u.Field(i).Type()) {
+				out = append(out, base+o)
+			}
+			base += e.size(u.Field(i).Type())
+		}
+	case *types.Array:
+		st := e.strideOf(u.Elem())
+		el := e.memOffsets(u.Elem())
+		for k := int64(0); k < u.Len(); k++ {
+			for _, o := range el {
+				out = append(out, k*st+o)
+			}
+		}
+	case *types.Tuple:
+		base := int64(0)
+		for i := 0; i < u.Len(); i++ {
+			for _, o := range e.memOffsets(u.At(i).Type()) {
+				out = append(out, base+o)
+			}
+			base += e.size(u.At(i).Type())
+		}
+	default:
+		for i := range e.layout(t) {
+			out = append(out, int64(i))
+		}
+	}
+	if out == nil {
+		out = []int64{}
+	}
+	e.memOffCache[t] = out
+	return out
 }
